@@ -420,4 +420,52 @@ MUTANTS += [
      "desc": "backward timestamp (fallback path) also moves the cached timestamp",
      "old": "      _fallback_formatted = _safe_strftime(_timestamp_format.data(), timestamp, _time_zone).data();\n",
      "new": "      _fallback_formatted = _safe_strftime(_timestamp_format.data(), timestamp, _time_zone).data();\n      _cached_timestamp = timestamp;\n"},
+    # ---------------- reverts of the later fixes (F4, F17) ----------------
+    {"id": "c19-revert-f4-named-scanner", "props": ["C19"], "file": "quill/backend/BackendWorker.h",
+     "desc": "named-arg scanner treats '}}' after a placeholder's closing brace as escaping it again (finding F4, named half)",
+     "old": """      while (close_bracket_pos != std::string::npos)
+      {
+        // construct a fmt string excluding the characters inside the brackets { }""",
+     "new": """      while (close_bracket_pos != std::string::npos)
+      {
+        if (size_t const close_bracket_2_pos = fmt_template.find_first_of('}', close_bracket_pos + 1);
+            close_bracket_2_pos != std::string::npos)
+        {
+          if ((close_bracket_2_pos - 1) == close_bracket_pos)
+          {
+            close_bracket_pos = fmt_template.find_first_of('}', close_bracket_2_pos + 1);
+            continue;
+          }
+        }
+
+        // construct a fmt string excluding the characters inside the brackets { }"""},
+    {"id": "c04-revert-f4-contains-named-args", "props": ["C04"], "file": "quill/core/MacroMetadata.h",
+     "desc": "_contains_named_args treats '}}' after a field as escaped and skips the character after every field (finding F4, positional half)",
+     "old": """            ++pos; // consume }
+            break;""",
+     "new": """            ++pos; // consume }
+            if (pos >= fmt.length())
+            {
+              break;
+            }
+
+            if (fmt[pos] == '}')
+            {
+              ++pos;
+              ++char_cnt;
+              continue;
+            }
+            break;""",
+     "old2": """        // pos is already at the character after the field, do not skip it
+        continue;
+""",
+     "new2": ""},
+    {"id": "c19-revert-f17", "props": ["C19"], "file": "quill/sinks/JsonSink.h",
+     "desc": "JsonSink appends named-arg values raw again (finding F17: a new line in a value splits the object)",
+     "old": """      if (_json_message[i] == '\\n')
+      {
+        _json_message[i] = ' ';""",
+     "new": """      if (_json_message[i] == '\\n' && false)
+      {
+        _json_message[i] = ' ';"""},
 ]
